@@ -203,8 +203,20 @@ class Formatter(BasicWalker[Retype]):
         result += ["end"]
         return result
 
+    def _format_key(self, key: Expression) -> Retype:
+        result: Retype = self.visit(key)
+        if result and isinstance(result[0], str) and result[0].startswith("["):
+            # `[` directly followed by a long string would open a long bracket
+            result.insert(0, Separators.Space)
+        return result
+
     def visit_Index(self, node: Index) -> Retype:
-        return [*self._format_var(node.lhs), "[", *self.visit(node.variable_name), "]"]
+        return [
+            *self._format_var(node.lhs),
+            "[",
+            *self._format_key(node.variable_name),
+            "]",
+        ]
 
     def visit_Label(self, node: Label) -> Retype:
         return ["::", *self.visit(node.label_name), "::"]
@@ -455,7 +467,7 @@ class Formatter(BasicWalker[Retype]):
     def visit_ExplicitTableField(self, node: ExplicitTableField) -> Retype:
         return [
             "[",
-            *self.visit(node.at),
+            *self._format_key(node.at),
             "]",
             Separators.Space,
             "=",
